@@ -263,3 +263,43 @@ def write_evidence(ctx, level, coverage, assumptions, violations):
     with open(os.path.join(VERIF, "evidence", ctx.prop + ".json"), "w") as f:
         json.dump(ev, f, indent=1)
     return ev
+
+
+BEH_RE = re.compile(r'^<<"BEH", "(.*)">>$')
+
+
+def generate_behaviours(ctx, n, depth=24, seed=None):
+    """Have TLC simulate MastGen.tla and return a file of distinct behaviours (one JSON object per line)."""
+    d = ctx.sub("tlc-gen")
+    for f in os.listdir(SPECS):
+        if f.endswith(".tla") or f.endswith(".cfg"):
+            shutil.copy(os.path.join(SPECS, f), d)
+    cfg = open(os.path.join(d, "MastGen.cfg")).read().replace("Depth = 24", "Depth = %d" % depth)
+    with open(os.path.join(d, "MastGenRun.cfg"), "w") as f:
+        f.write(cfg)
+    cmd = ["java", "-XX:+UseParallelGC", "-Xmx4g", "-Xss512m", "-cp", JAR, "tlc2.TLC", "-workers", "1", "-config", "MastGenRun.cfg",
+           "-metadir", os.path.join(d, "meta"), "-simulate", "num=%d" % max(20, n // 20), "-depth", str(depth + 2),
+           "-seed", str(seed if seed is not None else ctx.seed), "MastGen.tla"]
+    try:
+        p = subprocess.run(cmd, cwd=d, stdout=subprocess.PIPE, stderr=subprocess.STDOUT, text=True, timeout=900)
+    except subprocess.TimeoutExpired:
+        raise Undecided("TLC simulation of MastGen.tla timed out")
+    seen, out = set(), []
+    for ln in p.stdout.splitlines():
+        m = BEH_RE.match(ln.strip())
+        if m:
+            js = json.loads('"' + m.group(1) + '"')
+            if js not in seen:
+                seen.add(js)
+                out.append(js)
+    shutil.rmtree(os.path.join(d, "meta"), ignore_errors=True)
+    if not out:
+        raise Undecided("TLC produced no behaviour from MastGen.tla:\n" + p.stdout[-1500:])
+    # spread the selection over the whole simulation
+    step = max(1, len(out) // n)
+    sel = out[::step][:n]
+    path = os.path.join(ctx.scratch, "behaviours.ndjson")
+    with open(path, "w") as f:
+        for js in sel:
+            f.write(js + "\n")
+    return path, len(sel), len(out)
